@@ -79,7 +79,7 @@ def solve_lp(
     if any(matrix[i][-1] < -eps for i in range(m)):
         status, iters, matrix, basis, basis_set = _phase1(matrix, basis, basis_set, m, n, eps, max_iter)
         if status != Status.OPTIMAL:
-            return Result(tuple([0.0] * n), float("inf"), iters, iters, Status.INFEASIBLE)
+            return Result(tuple([0.0] * n), float("inf"), iters, iters, status)
         max_iter -= iters
     else:
         iters = 0
@@ -127,6 +127,10 @@ def _phase1(matrix, basis, basis_set, m, n, eps, max_iter):
                 matrix[-1][j] -= matrix[i][j]
 
     status, iters, matrix, basis, basis_set = _phase2(matrix, basis, basis_set, m, eps, max_iter)
+
+    if status == Status.MAX_ITER:
+        # Phase 1 was cut short: a positive artificial sum proves nothing yet
+        return Status.MAX_ITER, iters, matrix, basis, basis_set
 
     if matrix[-1][-1] < -eps:
         return Status.INFEASIBLE, iters, matrix, basis, basis_set
